@@ -134,7 +134,7 @@ def o1(proj, rep, focus=None):
             allb = assignments(fi.node).get(name, [])
             if all((path is None or isinstance(path, tuple)) and v is not None and
                    isinstance(v, (ast.Call, ast.Name, ast.Subscript)) and _cache_source(proj, fi, v, target)
-                   for v, st, path in allb):
+                   for v, st, path in allb if path != 'aug'):
                 sure[name] = src
         if not aliases:
             continue
